@@ -688,6 +688,17 @@ package go_clipper2
 //@   ensures [exit-detaches-edge-from-its-path] ae1.outrec == nil ==> (old(ae1.outrec).frontEdge != ae1 && old(ae1.outrec).backEdge != ae1)
 //@   ensures [still-hot-or-detached] ae1.outrec == nil || ae1.outrec == old(ae1.outrec)
 
+// two open edges cross: open paths never cut one another, nothing about either edge or the output
+// changes (C09: open paths are only cut at the clip region's boundary; C03: the later maxima code
+// relies on an open edge's ring being untouched by such crossings)
+//@ func clipperBase.intersectEdges variant openopen
+//@   props C09 C03
+//@   nosafety
+//@   requires ae1 != nil && ae2 != nil && ae1 != ae2 && ae1.localMin != nil && ae2.localMin != nil
+//@   requires c.hasOpenPaths && ae1.localMin.IsOpen && ae2.localMin.IsOpen
+//@   ensures [open-edges-pass-through-each-other] ae1.outrec == old(ae1.outrec) && ae2.outrec == old(ae2.outrec) && ae1.windCount == old(ae1.windCount) && ae2.windCount == old(ae2.windCount) && ae1.windCount2 == old(ae1.windCount2) && ae2.windCount2 == old(ae2.windCount2) && len(c.outrecList) == old(len(c.outrecList))
+//@   ensures [no-output-point] (ae1.outrec != nil ==> ae1.outrec.pts == old(ae1.outrec.pts)) && (ae2.outrec != nil ==> ae2.outrec.pts == old(ae2.outrec.pts))
+
 // topX depends on the scanline only through its distance from the edge's bottom (translation
 // invariance, C13): checked with rounded float arithmetic, so that forms that are equal over
 // the reals but not in float64 (e.g. dx*cy - dx*by) are told apart
